@@ -6,6 +6,7 @@
 package main
 
 import (
+	"math"
 	"fmt"
 	"os"
 	"path/filepath"
@@ -245,6 +246,14 @@ func scenarioCfg(cfg *scenCfg) int {
 		if kind != "grow" && ((cfg == nil && rnd.Intn(3) > 0) || (cfg != nil && cfg.withPtr)) {
 			w.c.Add(int64(1 + rnd.Intn(4))) // has a pointer
 			preAdds = 1
+			if cfg == nil && (kind == "plain" || kind == "ext") && rnd.Chance(12) {
+				// the persisted value a few units below 2^64-1: the scenario's
+				// increments reach the limit, where the value sticks (no new
+				// file in these kinds, so the sum over files is this one cell)
+				w.c.Add(math.MaxInt64)
+				w.c.Add(math.MaxInt64 - int64(rnd.Intn(8)))
+				out.Note("persisted-near-2^64")
+			}
 		}
 	}
 	// ---- threads ----
